@@ -1,26 +1,28 @@
 ------------------------------- MODULE Simplify -------------------------------
 (* R2: simplifyCurve (simplify.go) as a state machine, one action per loop    *)
-(* iteration, with the code's variables i, j, k, out, breakTime, breakTime2.  *)
-(* `out` holds input indices (1-based).  The slice expression out[0:i] of the *)
-(* code reaches past len(out) into the zero-valued spare capacity; the model  *)
-(* keeps that (ZeroPad), because it decides which candidate chords are        *)
-(* rejected.  Each step is a function of the state record so that the trace   *)
-(* specification can also run the machine to completion (RunF).               *)
+(* iteration, with the code's variables i, j, k and out (`out` holds input    *)
+(* indices, 1-based).  A candidate chord curve[i]..curve[m] is accepted only  *)
+(* if it meets neither the output built so far, nor the remaining input from  *)
+(* curve[m] on, nor another ring (NotSimple); otherwise the scan backs off to *)
+(* a shorter chord.  The closing chord to the last vertex is subject to the   *)
+(* same test (pc "endback").  Each step is a function of the state record so  *)
+(* that the trace specification can also run the machine to completion.       *)
 EXTENDS SimplifyOps, TLC
 
-St(i, j, k, out, bt, bt2, pc) == [i |-> i, j |-> j, k |-> k, out |-> out, bt |-> bt, bt2 |-> bt2, pc |-> pc]
-Start(curve) == St(1, 0, 0, <<>>, FALSE, FALSE,
-                   IF Len(curve) = 0 THEN "done" ELSE IF Len(curve) < 3 THEN "short" ELSE "outer")
+St(i, j, k, out, pc) == [i |-> i, j |-> j, k |-> k, out |-> out, pc |-> pc]
+Start(curve) == IF Len(curve) = 0 THEN St(1, 0, 0, <<>>, "done")
+                ELSE IF Len(curve) < 3 THEN St(1, 0, 0, <<>>, "short")
+                ELSE St(1, 3, 0, <<1>>, "jhead")
 
 OutPtsOf(curve, s) == [x \in 1..Len(s.out) |-> curve[s.out[x]]]
-(* out[0:n] of the code: the first n slots of a slice whose capacity is len(curve) *)
-ZeroPad(curve, s, n) == [x \in 1..n |-> IF x <= Len(s.out) THEN curve[s.out[x]] ELSE <<0, 0>>]
+(* the closure notSimple(i, j) of the code, for a line string (no other rings) *)
+NotSimple(curve, s, a, b) == \/ SegMakesNotSimple(curve[a], curve[b], OutPtsOf(curve, s))
+                             \/ SegMakesNotSimple(curve[a], curve[b], SubSeq(curve, b, Len(curve)))
 
 (* curves of one or two vertices are returned as they are *)
 ShortF(curve, s) == [s EXCEPT !.out = [x \in 1..Len(curve) |-> x], !.pc = "done"]
-OuterF(curve, s) == [s EXCEPT !.out = Append(s.out, s.i), !.bt = FALSE, !.j = s.i + 2, !.pc = "jhead"]
-JHeadF(curve, s) == IF s.j <= Len(curve) THEN [s EXCEPT !.bt2 = FALSE, !.k = s.i + 1, !.pc = "khead"]
-                    ELSE [s EXCEPT !.pc = IF s.bt THEN "done" ELSE "outer"]
+JHeadF(curve, s) == IF s.j <= Len(curve) THEN [s EXCEPT !.k = s.i + 1, !.pc = "khead"]
+                    ELSE [s EXCEPT !.pc = "done"]
 KHeadF(curve, tol2, s) ==
     IF s.k < s.j
     THEN IF RatGt(Dist2PointSeg(curve[s.k], curve[s.i], curve[s.j]), tol2)
@@ -28,24 +30,28 @@ KHeadF(curve, tol2, s) ==
          ELSE [s EXCEPT !.k = s.k + 1]
     ELSE [s EXCEPT !.pc = "jtail"]
 BackOffF(curve, s) ==
-    IF s.j > s.i + 2 /\ ( \/ SegMakesNotSimple(curve[s.i], curve[s.j - 1], ZeroPad(curve, s, s.i - 1))
-                          \/ SegMakesNotSimple(curve[s.i], curve[s.j - 1], SubSeq(curve, s.j, Len(curve))) )
+    IF s.j > s.i + 2 /\ NotSimple(curve, s, s.i, s.j - 1)
     THEN [s EXCEPT !.j = s.j - 1]
-    ELSE [s EXCEPT !.i = s.j - 1, !.out = Append(s.out, s.j - 1), !.bt2 = TRUE, !.pc = "jtail"]
-JTailF(curve, s) ==
-    LET s2 == IF s.j = Len(curve) THEN [s EXCEPT !.out = Append(s.out, s.j), !.bt = TRUE] ELSE s
-    IN [s2 EXCEPT !.j = s.j + 1, !.pc = "jhead"]
+    ELSE [s EXCEPT !.i = s.j - 1, !.out = Append(s.out, s.j - 1), !.pc = "jtail"]
+JTailF(curve, s) == IF s.j = Len(curve) THEN [s EXCEPT !.pc = "endback"] ELSE [s EXCEPT !.j = s.j + 1, !.pc = "jhead"]
+(* the last vertex is added regardless of distance, but the closing chord backs off like any other *)
+EndBackF(curve, s) ==
+    IF s.j > s.i + 1 /\ NotSimple(curve, s, s.i, s.j)
+    THEN [s EXCEPT !.j = s.j - 1]
+    ELSE LET o1 == Append(s.out, s.j)
+             o2 == IF s.j = Len(curve) - 1 THEN Append(o1, Len(curve)) ELSE o1
+         IN [s EXCEPT !.out = o2, !.i = s.j, !.j = s.j + 2, !.pc = "jhead"]
 
 StepF(curve, tol2, s) ==
     CASE s.pc = "short" -> ShortF(curve, s)
-      [] s.pc = "outer" -> OuterF(curve, s)
       [] s.pc = "jhead" -> JHeadF(curve, s)
       [] s.pc = "khead" -> KHeadF(curve, tol2, s)
       [] s.pc = "backoff" -> BackOffF(curve, s)
       [] s.pc = "jtail" -> JTailF(curve, s)
+      [] s.pc = "endback" -> EndBackF(curve, s)
 RECURSIVE RunF(_, _, _, _)
 RunF(curve, tol2, s, fuel) == IF s.pc = "done" \/ fuel = 0 THEN s ELSE RunF(curve, tol2, StepF(curve, tol2, s), fuel - 1)
-(* the output of the documented algorithm (vertex sequence), <<>> if it does not finish within the fuel *)
+(* the output of the transcribed algorithm (vertex sequence), <<>> if it does not finish within the fuel *)
 Documented(curve, tol2) ==
     LET n == Len(curve)
         s == RunF(curve, tol2, Start(curve), 4 * n * n * n + 16 * n + 16)
@@ -58,17 +64,17 @@ vars == <<curve, tol2, st>>
 
 Init == curve \in Curves /\ tol2 \in Tol2s /\ st = Start(curve)
 Short == st.pc = "short" /\ st' = ShortF(curve, st) /\ UNCHANGED <<curve, tol2>>
-Outer == st.pc = "outer" /\ st' = OuterF(curve, st) /\ UNCHANGED <<curve, tol2>>
 JHead == st.pc = "jhead" /\ st' = JHeadF(curve, st) /\ UNCHANGED <<curve, tol2>>
 KHead == st.pc = "khead" /\ st' = KHeadF(curve, tol2, st) /\ UNCHANGED <<curve, tol2>>
 BackOff == st.pc = "backoff" /\ st' = BackOffF(curve, st) /\ UNCHANGED <<curve, tol2>>
 JTail == st.pc = "jtail" /\ st' = JTailF(curve, st) /\ UNCHANGED <<curve, tol2>>
-Next == Short \/ Outer \/ JHead \/ KHead \/ BackOff \/ JTail
+EndBack == st.pc = "endback" /\ st' = EndBackF(curve, st) /\ UNCHANGED <<curve, tol2>>
+Next == Short \/ JHead \/ KHead \/ BackOff \/ JTail \/ EndBack
 Spec == Init /\ [][Next]_vars /\ WF_vars(Next)
 
 Terminates == <>(st.pc = "done")
 OutBounded == Len(st.out) <= Len(curve) + 1
 ResultOK == st.pc = "done" => SimplifyOK(curve, tol2, OutPtsOf(curve, st), FALSE)
-(* NOT an invariant of the documented algorithm (see DESIGN.md, known finding C13): kept to exhibit witnesses *)
+(* a simple input stays simple (an invariant since the repair of the back-off rule, see DESIGN.md section 9.4) *)
 SimplePreserved == st.pc = "done" => SimplicityOK(curve, OutPtsOf(curve, st))
 =============================================================================
